@@ -943,7 +943,7 @@ TightDataPointStorageI* SZ_compress_int16_4D_MDQ(int16_t *oriData, size_t r1, si
 		index2D = 1;
 
 		pred1D = P1[index2D-1];
-		diff = curValue - pred1D;
+		diff = spaceFillingValue[index] - pred1D;
 
 		itvNum = llabs(diff)/realPrecision + 1;
 
@@ -963,7 +963,7 @@ TightDataPointStorageI* SZ_compress_int16_4D_MDQ(int16_t *oriData, size_t r1, si
 		{
 			type[index] = 0;
 
-			curValue = P1[index2D] = spaceFillingValue[0];
+			curValue = P1[index2D] = spaceFillingValue[index];
 			compressInt16Value(curValue, minValue, byteSize, bytes);
 			memcpyDBA_Data(exactDataByteArray, bytes, byteSize);
 		}
@@ -995,7 +995,7 @@ TightDataPointStorageI* SZ_compress_int16_4D_MDQ(int16_t *oriData, size_t r1, si
 			{
 				type[index] = 0;
 
-				curValue = P1[index2D] = spaceFillingValue[0];
+				curValue = P1[index2D] = spaceFillingValue[index];
 				compressInt16Value(curValue, minValue, byteSize, bytes);
 				memcpyDBA_Data(exactDataByteArray, bytes, byteSize);
 			}
@@ -1029,7 +1029,7 @@ TightDataPointStorageI* SZ_compress_int16_4D_MDQ(int16_t *oriData, size_t r1, si
 			{
 				type[index] = 0;
 
-				curValue = P1[index2D] = spaceFillingValue[0];
+				curValue = P1[index2D] = spaceFillingValue[index];
 				compressInt16Value(curValue, minValue, byteSize, bytes);
 				memcpyDBA_Data(exactDataByteArray, bytes, byteSize);
 			}
@@ -1062,7 +1062,7 @@ TightDataPointStorageI* SZ_compress_int16_4D_MDQ(int16_t *oriData, size_t r1, si
 				{
 					type[index] = 0;
 
-					curValue = P1[index2D] = spaceFillingValue[0];
+					curValue = P1[index2D] = spaceFillingValue[index];
 					compressInt16Value(curValue, minValue, byteSize, bytes);
 					memcpyDBA_Data(exactDataByteArray, bytes, byteSize);
 				}
@@ -1099,7 +1099,7 @@ TightDataPointStorageI* SZ_compress_int16_4D_MDQ(int16_t *oriData, size_t r1, si
 			{
 				type[index] = 0;
 
-				curValue = P0[index2D] = spaceFillingValue[0];
+				curValue = P0[index2D] = spaceFillingValue[index];
 				compressInt16Value(curValue, minValue, byteSize, bytes);
 				memcpyDBA_Data(exactDataByteArray, bytes, byteSize);
 			}
@@ -1131,7 +1131,7 @@ TightDataPointStorageI* SZ_compress_int16_4D_MDQ(int16_t *oriData, size_t r1, si
 				{
 					type[index] = 0;
 
-					curValue = P0[index2D] = spaceFillingValue[0];
+					curValue = P0[index2D] = spaceFillingValue[index];
 					compressInt16Value(curValue, minValue, byteSize, bytes);
 					memcpyDBA_Data(exactDataByteArray, bytes, byteSize);
 				}
@@ -1165,7 +1165,7 @@ TightDataPointStorageI* SZ_compress_int16_4D_MDQ(int16_t *oriData, size_t r1, si
 				{
 					type[index] = 0;
 
-					curValue = P0[index2D] = spaceFillingValue[0];
+					curValue = P0[index2D] = spaceFillingValue[index];
 					compressInt16Value(curValue, minValue, byteSize, bytes);
 					memcpyDBA_Data(exactDataByteArray, bytes, byteSize);
 				}
@@ -1198,7 +1198,7 @@ TightDataPointStorageI* SZ_compress_int16_4D_MDQ(int16_t *oriData, size_t r1, si
 					{
 						type[index] = 0;
 
-						curValue = P0[index2D] = spaceFillingValue[0];
+						curValue = P0[index2D] = spaceFillingValue[index];
 						compressInt16Value(curValue, minValue, byteSize, bytes);
 						memcpyDBA_Data(exactDataByteArray, bytes, byteSize);
 					}
